@@ -66,9 +66,13 @@ func initMetrics() {
 // NewDistributor creates a new Distributor from the given configuration.
 func NewDistributor(baseURL string, client *http.Client, logs []config.Log, witSigV note.Verifier, wit Witness) (*Distributor, error) {
 	initMetrics()
+	// A redirect is not the distributor's answer, and must not be followed: the HTTP client would retry 301, 302 and 303
+	// with a GET and replay the PUT, body included, for 307 and 308 at whatever location the answer names.
+	noRedirects := *client
+	noRedirects.CheckRedirect = func(*http.Request, []*http.Request) error { return http.ErrUseLastResponse }
 	return &Distributor{
 		baseURL: baseURL,
-		client:  client,
+		client:  &noRedirects,
 		logs:    logs,
 		witSigV: witSigV,
 		witness: wit,
@@ -128,10 +132,10 @@ func (d *Distributor) distributeForLog(ctx context.Context, l config.Log) error 
 	if err != nil {
 		return fmt.Errorf("failed to do http request: %v", err)
 	}
+	defer resp.Body.Close()
 	if resp.Request.Method != http.MethodPut {
 		return fmt.Errorf("PUT request to %q was converted to %s request to %q", u.String(), resp.Request.Method, resp.Request.URL)
 	}
-	defer resp.Body.Close()
 	body, err := io.ReadAll(resp.Body)
 	if err != nil {
 		return fmt.Errorf("failed to read body: %v", err)
